@@ -1,5 +1,6 @@
 import UralModel.Lemmas.UrlRoundTrip
 import UralModel.Lemmas.Canonicalize
+import UralModel.Lemmas.CanonAuth
 import UralModel.Model.CanonicalizeUrl
 import UralModel.Lemmas.Str
 /-!
@@ -610,6 +611,17 @@ theorem noCtl_requote (quoted : Bool) (U : List UInt8) {s : Str} (h : NoCtl s) :
   · exact noCtl_safelyQuote _
   · exact noCtl_safelyUnquote U h
 
+theorem noCtl_requote_auth (quoted : Bool) {s : Str} (h : NoCtl s) :
+    NoCtl (requote quoted unquoteAuthItem s) := by
+  unfold requote
+  split
+  · exact noCtl_safelyQuote _
+  · intro c hc
+    rcases mem_requoteNfkc_cases hc with h1 | rfl | h1
+    · exact noCtl_safelyUnquote _ h c h1
+    · decide
+    · apply not_ctl_of_range; have := isHexDigit_toNat h1; omega
+
 /-- a query key / value as `canonicalize_url` prints it: unquoted, and quoted again with
 `safe="/+"` in quoted mode -/
 def requoteItem (quoted : Bool) (s : Str) : Str :=
@@ -1113,10 +1125,7 @@ theorem mem_getD_canonOpt {q : Bool} {unq : Str → Str} {o : Option Str} {c : C
 (table obligation: they are all in `UNSAFE_FOR_AUTH_ITEM`) -/
 theorem requote_auth_not_mem {d : Char} (hd : d ∈ ['@', ':', '/', '?', '#', '[', ']'])
     (quoted : Bool) (u : Str) (hu : d ∉ u) : d ∉ requote quoted unquoteAuthItem u := by
-  have h1 : d ∉ unquoteAuthItem u := by
-    simp only [List.mem_cons, List.not_mem_nil, or_false] at hd
-    rcases hd with rfl | rfl | rfl | rfl | rfl | rfl | rfl <;>
-      exact not_mem_safelyUnquote _ ⟨by decide, by decide⟩ (by decide) (by decide) u hu
+  have h1 : d ∉ unquoteAuthItem u := not_mem_authItem hd u hu
   unfold requote
   split
   · simp only [List.mem_cons, List.not_mem_nil, or_false] at hd
@@ -1404,10 +1413,10 @@ theorem noCtl_comps :
   refine ⟨?_, ?_, ?_⟩
   · intro c hc
     obtain ⟨u, hsub, _, _, hcu⟩ := user_mem hpc quoted sf h hc
-    exact noCtl_requote quoted _ (NoCtl.of_subset hsub hn) c hcu
+    exact noCtl_requote_auth quoted (NoCtl.of_subset hsub hn) c hcu
   · intro c hc
     obtain ⟨u, hsub, _, hcu⟩ := pass_mem hpc quoted sf h hc
-    exact noCtl_requote quoted _ (NoCtl.of_subset hsub hn) c hcu
+    exact noCtl_requote_auth quoted (NoCtl.of_subset hsub hn) c hcu
   · intro c hc
     obtain ⟨h0, hl, _, _, hch⟩ := host_mem hpc quoted sf h hc
     exact noCtl_canonHost puny hpc (hl.noCtl hn) c hch
